@@ -804,13 +804,26 @@ def build_plan(ctx, gaps):
     for (hname, h), cfgs in by_hist.items():
         plan.append(("corpus:" + hname, list(h), cfgs))
     if not ctx.thorough:
+        # with a single class the accepted stream is often one event repeated (stutter hides a lost repeat):
+        # a few two-class filters whose second class separates the repeats
+        separators = [["FileModified", "DirModified"], ["FileOpened", "DirModified"],
+                      ["FileSystemMovedEvent", "FileDeleted"], ["FileCreated", "DirDeleted"]]
+        # the static reading of the real table names (class, flag) gaps: aim lanes at them
+        targeted = []
+        for (name, recursive), flags in sorted(gaps.items()):
+            for F in ([name], [name, "FileModified"], [name, "FileOpened"]):
+                if len(set(F)) == len(F):
+                    targeted += [(F, recursive, False), (F, recursive, True)]
+        targeted = targeted[:60]
         for hname, h in HISTORIES.items():
             cfgs = []
-            for F in singles:
+            for F in singles + separators:
                 for recursive in (False, True):
                     # alternate the emitter kind so that both kinds see every filter and every history
-                    full = (ALL13.index(F[0]) + int(recursive) + list(HISTORIES).index(hname)) % 2 == 1
+                    full = ((ALL13.index(F[0]) + len(F)) + int(recursive) + list(HISTORIES).index(hname)) % 2 == 1
                     cfgs.append((F, recursive, full))
+            have = {(tuple(F), r, fu) for F, r, fu in cfgs}
+            cfgs += [c for c in targeted if (tuple(c[0]), c[1], c[2]) not in have]
             plan.append((hname, h, cfgs))
     else:
         rng = ctx.rng("histories")
@@ -865,6 +878,10 @@ def run(ctx) -> Result:
                 "kind, history) on the real kernel with an unfiltered and a filtered watch on the same root; non-trivial = the "
                 "accepted part of the unfiltered stream is neither empty nor everything")
     t0 = time.time()
+    rc, head = core.sh(["git", "-C", str(core.REPO), "rev-parse", "--short", "HEAD"])
+    rc2, dirty = core.sh(["git", "-C", str(core.REPO), "status", "--porcelain", "--", "src/watchdog/observers"])
+    res.notes.append(f"watchdog checkout under test: {core.REPO} HEAD={head.strip() if rc == 0 else '?'}"
+                     + (f" with local changes: {dirty.split()}" if dirty.strip() else ""))
     unit_emit(ctx, res)
     gaps = unit_mask(ctx, res)
     translator_selftest(ctx, res)
@@ -873,7 +890,7 @@ def run(ctx) -> Result:
         res.notes.append("static reading of the table in the source: flags that matter but are absent from the real mask: "
                          + "; ".join(f"{k[0]}{'/recursive' if k[1] else ''}: {'|'.join(v)}" for k, v in sorted(gaps.items())[:30]))
     plan = build_plan(ctx, gaps)
-    e2e(ctx, res, plan, batch=26 if not ctx.thorough else 30)
+    e2e(ctx, res, plan, batch=34 if not ctx.thorough else 30)
     confirm(ctx, res)
     res.notes.append(f"timing: unit+translator {t1 - t0:.1f}s, end-to-end {time.time() - t1:.1f}s; "
                      f"{sum(len(c) for _, _, c in plan)} lanes over {len(plan)} histories")
